@@ -43,6 +43,8 @@ fn variants(file: usize) -> Vec<&'static str> {
             "use \"a.oal\" as a;\nlet m = { 'x a.v ;\nres / on get -> m;\n",
             "use \"a.oal\" as a;\nuse \"../c.oal\" as c;\nlet m = { 'x a.v, 'z c.u };\nres / on get -> m `description: \"é€😉\"`;\n",
             "let m = { 'x nope };\nres / on get -> m;\n",
+            // a recursion that passes through a function of the imported module
+            "use \"a.oal\" as a;\nlet page = a.wrap self;\nlet self = /pages on get -> page;\nres self;\n",
         ],
         1 => vec![
             "let v = { 'name str, 'n int };\n",
@@ -55,6 +57,8 @@ fn variants(file: usize) -> Vec<&'static str> {
             "use \"lib/b.oal\";\nlet v = { 'name w };\n",
             // an import that cannot be found, in a module that is not the main one, behind multi-byte text
             "// é😉 préfixe — €\nuse \"lib/nowhere.oal\";\nlet v = { 'name str };\n",
+            "let v = { 'name str, 'n int };\nlet wrap x = { 'self x, 'v v };\n",
+            "let v = { 'name str };\nlet wrap x = <status=200, { 'self x }>;\n",
         ],
         2 => vec![
             "let w = num;\n",
@@ -103,7 +107,42 @@ struct Client {
 const SOLO_MAIN: [usize; 3] = [3, 4, 9];
 
 fn gen_history(rng: &mut Rng, max_steps: usize) -> (Vec<usize>, Vec<Step>) {
-    if rng.chance(1, 8) {
+    let family = rng.below(8);
+    if family == 1 {
+        // the library is edited while the main module stays what it is on disk, never opened: whatever the server keeps
+        // of a module it did not see change (text, tree, what the compiler wrote into the tree) meets new imports
+        const IMPORTING_MAIN: [usize; 6] = [0, 2, 5, 6, 8, 10];
+        let lib = variants(1);
+        let disk = vec![*rng.pick(&IMPORTING_MAIN), rng.below(lib.len()), 0, 0];
+        let mut steps = Vec::new();
+        if rng.chance(2, 3) {
+            steps.push(Step::Request(0, "textDocument/definition", rng.below(60)));
+        }
+        let mut is_open = false;
+        for _ in 0..rng.range(2, 5) {
+            let t = (*rng.pick(&lib)).to_owned();
+            if is_open {
+                steps.push(Step::Change(1, vec![(None, t)]));
+            } else {
+                steps.push(Step::Open(1, t));
+                is_open = true;
+            }
+            if rng.chance(2, 3) {
+                let m = *rng.pick(&["textDocument/definition", "textDocument/references", "textDocument/prepareRename"]);
+                steps.push(Step::Request(rng.below(2), m, rng.below(120)));
+            }
+            if rng.chance(1, 2) {
+                steps.push(Step::Checkpoint);
+            }
+            if is_open && rng.chance(1, 4) {
+                steps.push(Step::Close(1));
+                is_open = false;
+            }
+        }
+        steps.push(Step::Checkpoint);
+        return (disk, steps);
+    }
+    if family == 0 {
         // a single-module program: the only document the server holds is opened with unsaved text and closed again,
         // several times, with and without requests in between
         let disk = vec![3, 0, 0, 0];
